@@ -380,6 +380,12 @@ class _ClientData:
         return self._datagram_queue.popleft()
 
     async def pop_datagram(self) -> bytes:
+        if self._datagram_queue:
+            # Already have a datagram: always let the other tasks run between two queued datagrams
+            # (a long backlog of one client must not keep the other clients waiting until it is exhausted).
+            datagram = self._datagram_queue.popleft()
+            await self.__backend.cancel_shielded_coro_yield()
+            return datagram
         async with (queue_condition := self._queue_condition):
             queue = self._datagram_queue
             while not queue:
